@@ -224,6 +224,38 @@ def _diff_paths(a, b, path=()):
     return out
 
 
+def judge_constructor(owner, name, value):
+    diffx = trees.build(BASE_TREE)
+    before = trees.snapshot(diffx)
+    valid = is_valid(name, value)
+    factory = (diffx.add_change if owner == 'change'
+               else diffx.changes[1].add_file)
+    what = 'add_%s(%s=%r)' % (owner, name, value)
+
+    try:
+        sec = factory(**{name: copy.deepcopy(value)})
+    except Exception as e:
+        if valid is True:
+            return 'valid-value-refused', '%s raised %r' % (what, e)
+
+        if not trees.snap_eq(before, trees.snapshot(diffx)):
+            return ('refused-constructor-changed-the-tree',
+                    '%s raised but: %s' % (what, trees.snap_diff(
+                        before, trees.snapshot(diffx))))
+
+        return None
+
+    if valid is False:
+        return 'invalid-value-stored', '%s was accepted' % what
+
+    got = getattr(sec, name)
+
+    if type(got) is not type(value) or got != value:
+        return 'stored-value-differs', '%s reads back as %r' % (what, got)
+
+    return None
+
+
 UNKNOWN_KW = ['foo', 'lenght', 'Encoding', 'preamble_text', 'metadata',
               'indent_', 'diff_content', 'file', 'change', 'line_ending',
               'mimetypes', 'text', 'length']
@@ -292,6 +324,20 @@ def run_enum_chunk(owner, st):
                 st.violation(res[0], res[1],
                              {'owner': owner, 'name': name, 'value': value})
 
+    if owner in ('change', 'file'):
+        # the same values through add_change()/add_file() keywords: a
+        # refused keyword must leave the tree without the new section
+        for name in OWNERS[owner]:
+            for value in catalogue(name):
+                res = judge_constructor(owner, name, value)
+                evals += 1
+                nontrivial += 1
+
+                if res is not None:
+                    st.violation(res[0], res[1],
+                                 {'owner': owner, 'name': name,
+                                  'value': value, 'via': 'constructor'})
+
     if owner in ('main', 'change', 'file'):
         for kw in UNKNOWN_KW:
             res = judge_unknown_kw(owner, kw)
@@ -305,7 +351,9 @@ def run_enum_chunk(owner, st):
 
 
 def run_enum_case(case, st):
-    if 'kw' in case:
+    if case.get('via') == 'constructor':
+        res = judge_constructor(case['owner'], case['name'], case['value'])
+    elif 'kw' in case:
         res = judge_unknown_kw(case['owner'], case['kw'])
     else:
         res = judge_assignment(case['owner'], case['name'], case['value'])
